@@ -24,6 +24,7 @@ META = {
     "assumptions": ["wsaccel absent"],
 }
 META["claim"] += " " + "Also driven: one ABNF object written several times (re-sent unchanged and with data/fin/opcode updated between writes) - every write is a frame of its own with a fresh key; the repository's own tests re-run with icontract postconditions on ABNF.format/ABNF.mask."
+META["claim"] += " " + 'Round 3b: equally shaped frames received (through the traced message-level call) and then sent on one connection, run first in every fresh shard process (process-wide formatting state), trace on and off.'
 
 try:
     from websockets.frames import Frame as _WsFrame
@@ -160,14 +161,15 @@ def run(res, tier, seed, shard, nshards):
 
     def scen():
         conns = {}
-        for (L, api, ks, trace) in mine:
-            one(res, W, rng, conns, L, api, ks, trace, null)
-        W.enableTrace(False)
-        # receives and sends of equally shaped frames interleaved on one connection (the receive path formats frames too when
-        # trace logging is on): every frame the client writes is still a masked client frame of its own
+        # first thing in this (fresh) process: receives and sends of equally shaped frames interleaved on one connection, so
+        # that for many shapes the very first frame formatted in the process is a *received* one (trace logging formats
+        # received frames too).  Every frame the client writes is still a masked client frame of its own.
         for i in range(40 if tier == "quick" else 600):
             if (i + shard) % nshards == 0:
                 duplex_case(res, W, rng, null)
+        for (L, api, ks, trace) in mine:
+            one(res, W, rng, conns, L, api, ks, trace, null)
+        W.enableTrace(False)
         # one ABNF object written several times (re-sent as is, and with fin/opcode/data updated per fragment):
         # every write is one well-formed frame of its own with a fresh key
         for ks in ("default", "bytes", "str"):
@@ -393,7 +395,10 @@ def duplex_case(res, W, rng, null):
         if rng.random() < 0.7:
             conn.deliver(RR.encode(op, payload, fin=fin))
             try:
-                w.recv_frame()
+                if op in (RR.PING, RR.PONG) or rng.random() < 0.5:
+                    w.recv_data_frame(True)  # message-level receive (this is where received frames are traced)
+                else:
+                    w.recv_frame()
             except W.WebSocketException:
                 pass
         # ... then the client writes one of the same shape
